@@ -490,6 +490,30 @@ pub fn gen(thorough: bool, seed: u64, out: &mut impl Write) {
       writeln!(out, "C10 did {}", hex(s.as_bytes())).unwrap();
     });
   }
+  // padding: control characters and white space of every kind, 1..4 of them, in front of / behind DIDs and DID URLs
+  // with and without path, query and fragment (the third-party parser trims them but keeps the untrimmed string)
+  {
+    let pads = ["\0", "\u{1}", "\u{8}", "\u{e}", "\u{1f}", "\u{7f}", " ", "\t", "\n", "\u{b}", "\u{c}", "\r", "\u{85}", "\u{a0}"];
+    let bodies = ["did:m:a", "did:m:a?x", "did:m:a#f", "did:m:a/p", "did:m:a/p?q#f", "did:m:ab?x=1#f", "did:example:123?x"];
+    let mut padstrs: Vec<String> = vec![];
+    for a in pads {
+      padstrs.push(a.to_string());
+      for b in pads {
+        padstrs.push(format!("{}{}", a, b));
+      }
+      padstrs.push(a.repeat(3));
+      padstrs.push(a.repeat(4));
+      padstrs.push(format!("{}\0{}", a, a));
+    }
+    for b in bodies {
+      for p in &padstrs {
+        for s in [format!("{}{}", p, b), format!("{}{}", b, p), format!("{}{}{}", p, b, p)] {
+          writeln!(out, "C10 url {}", hex(s.as_bytes())).unwrap();
+          writeln!(out, "C10 did {}", hex(s.as_bytes())).unwrap();
+        }
+      }
+    }
+  }
   // join / setters: base values x segments
   let bases = [
     "did:m:a", "did:m:a/p", "did:m:a/p/q", "did:m:a/p/", "did:m:a?x=1", "did:m:a#f", "did:m:a/p?x#f", "did:m:a/%41", "did:m:%41a",
